@@ -123,6 +123,7 @@ def run(ctx):
                                ngen=12, steps=140 if quick else 80, variants=variants,
                                scripted=ps.amplifier_jobs(variants) + ps.fault_jobs(variants)[::2 if quick else 1]
                                + ps.expired_jobs(variants) + ps.nested_jobs(variants))
+    ps.concurrent_phase(ctx, PID)
     if not quick:
         ps.selftest(ctx, PID, trace, lambda r: r.get("a") == "probe" and r.get("cnt", 0) > 0,
                     lambda r: r.update(cnt=r["cnt"] - 1, cs=r["cs"][:-1]), "probe_count_changed")
